@@ -355,6 +355,13 @@ func (l Lock) verifyBuilderRegistrations() error {
 			return err
 		}
 
+		// The stored message must be the message whose signature is verified below: the lock hash covers
+		// FeeRecipient only through a raw PutBytes (right-padded, no length) and PubKey left-padded.
+		if !bytes.Equal(regMsg.FeeRecipient[:], val.BuilderRegistration.Message.FeeRecipient) ||
+			!bytes.Equal(regMsg.Pubkey[:], val.BuilderRegistration.Message.PubKey) {
+			return errors.New("builder registration message does not match validator", z.Int("i", i))
+		}
+
 		sigRoot, err := registration.GetMessageSigningRoot(regMsg, eth2p0.Version(l.ForkVersion))
 		if err != nil {
 			return err
